@@ -1376,6 +1376,10 @@ fn main() {
     match load(root, "libfs/src/common.rs") {
         Ok(src) => {
             emit("merge_extents", merge_extents(&src), &mut out);
+            emit("read_bytes", call_order(&src, "read_bytes", "x_read_bytes_steps", &[("pread", 50)],
+                "the positional read used by the block fallback (50 = pread: no shared cursor is touched)"), &mut out);
+            emit("write_bytes", call_order(&src, "write_bytes", "x_write_bytes_steps", &[("pwrite", 51)],
+                "the positional write used by the block fallback (51 = pwrite)"), &mut out);
             emit("copy_range_uspace", eff_function(&src, &EFF_RANGE), &mut out);
             emit("copy_bytes_uspace", eff_function(&src, &EFF_BYTES), &mut out);
         }
